@@ -420,9 +420,17 @@ def check_c20(ctx, R):
             for d_ in (1, 2, 3, 4):  # the same quantity through hoisted locals, at every depth of substitution
                 found |= _found_in(_compare_view(f0, subst=True, maxdepth=d_), two_sided)
         found |= {re.sub(r"\[(\'[^\']*\'|\"[^\"]*\")\]", "", x) for x in found}  # a data key spelled out where a local stood for it
+        # comparisons handed to a private helper that could not be read in place (it defines functions of its own, interprets attribute
+        # paths given as strings, …): what is compared there is not visible, so a missing comparison cannot be told from a delegated one
+        opaque = [c for c in walk_local(f.node) if isinstance(c, ast.Call) and isinstance(c.func, ast.Attribute) and norm(c.func.value) == "self"
+                  and c.func.attr.startswith("_") and not c.func.attr.startswith("__") and c.func.attr in cc.methods
+                  and {S.of(a_) for a_ in c.args} >= {"O", "C"}]
         for req in REQUIRED.get(mname, []):
             if req in found:
                 R.ok("K2", "%s compares %s" % (mname, req), f.loc())
+            elif opaque:
+                raise AnalysisError("K2: %s hands both sides to `%s`, which the analysis cannot read in place; whether `%s` is still compared is undecided"
+                                    % (mname, opaque[0].func.attr, req))
             else:
                 R.bad("K2", "%s|missing|%s" % (f.key, req), f.loc(),
                       "%s no longer compares `%s` across the two netlists: a copy that differs there is accepted" % (mname, req))
